@@ -325,7 +325,13 @@ def run(ctx):
     ctx.cov["generator_distribution"] = kinds
     ctx.cov["rule"] = (
         "each case is one InjectGovernanceVAARequest, passed through protobuf Marshal/Unmarshal and then through the real "
-        "(*nodePrivilegedService).InjectGovernanceVAA on two service instances with different histories. Single-message requests of "
+        "(*nodePrivilegedService).InjectGovernanceVAA on nine service instances with the same governance configuration and different "
+        "ambient node state: a reference instance, three in-process instances whose state fields are filled by type, and five built by the "
+        "production constructor adminServiceRunnable, run under a supervisor and called over the admin unix socket (guardian-set state "
+        "nil / empty / index 0 / equal to / higher than the request, empty and non-empty stores, different injectC fill levels and "
+        "histories); any difference in status, message, any VAA field or digest is `result-depends-on-node-state`. Sweeps of very short "
+        "hex fields (decoded length 0..3 with every leading-byte class, every 1-byte refund address 00..ff, address type bytes at lengths "
+        "2..67) in every hex-carrying field. Single-message requests of "
         "each of the nine kinds (+ unset oneof) with field values across and beyond the wire ranges (chain ids and target chains up to "
         "2^32-1, consistency level up to 2^32-1, set index incl. 2^32-2 / 2^32-1, module names of 0/31/32/33/64+ bytes incl. multi-byte "
         "runes, hex fields valid / one byte short or long / odd length / one non-hex character / 0x prefix, guardian lists of 0..30 keys "
@@ -340,7 +346,8 @@ def run(ctx):
         "harness/guardiand/c15_gov_verif_test.go (generator, canonical rendering, Keccak recomputation) and Whv/Driver/Gov.lean (comparison)",
         "tools/p2pstub: package guardiand is compiled with the body of p2p.Run stubbed (quic-go does not build on this Go)",
         "Keccak-256 is an oracle (digest equality is derived from equality of signing bodies)",
-        "protobuf / gRPC transport: requests are round-tripped through proto.Marshal/Unmarshal, the gRPC server itself is not started",
+        "a handler panic is only recoverable on the in-process instances; the socket instances are skipped for a request that already "
+        "panicked in-process (in the thorough tier they see every 4th case)",
     ]
     ctx.assumptions += [
         "requests are those protobuf can carry: uint32/uint64 fields in range, strings valid UTF-8 (Req.WF / Payload.WF in the theorems)",
